@@ -450,8 +450,7 @@ class PauliSum:
         _validate_type(other)
 
         if isinstance(other, (int, float, complex)):
-            constant_term = PauliTerm("I0", complex(other))
-            return self == PauliSum([constant_term])
+            return self == PauliTerm("I0", complex(other))
 
         if isinstance(other, PauliTerm):
             if len(self) == 0:
